@@ -141,7 +141,8 @@ class Driver:
                     ev += [("rshift_tt", t, t2), ("lshift_tt", t, t2), ("ijoin", t, t2), ("fjoin", t, t2)]
         for t in tabs:
             ev += [("tw_cell", t), ("tw_row", t), ("tw_badrow", t), ("tw_col", t), ("tw_badcol", t), ("t_setattr_list", t),
-                   ("t_setattr_badlist", t), ("t_rename", t), ("t_rename_bad", t), ("rowread", t)]
+                   ("t_setattr_badlist", t), ("t_rename", t), ("t_rename_bad", t), ("rowread", t),
+                   ("col_iop", t, "ilshift"), ("col_iop", t, "irshift"), ("col_iop", t, "iadd"), ("attr_iop", t, "ilshift"), ("attr_iop", t, "iadd")]
             for v in vecs:
                 ev.append(("t_setattr_vec", t, v))
             for t2 in tabs:
@@ -305,6 +306,22 @@ class Driver:
                 if not n:
                     raise Disabled()
                 return guarded(lambda: t.__setitem__(0, [k() for _ in range(ncol + 1)]))
+            if op == "col_iop":
+                # augmented assignment on a live column (c = t.cols(0); c <<= v): whatever it does to the name c, the table stays rectangular
+                if not ncol:
+                    raise Disabled()
+                import operator as _op
+                c = t.cols(0)
+                return guarded(lambda: getattr(_op, ev[2])(c, k()))
+            if op == "attr_iop":
+                # t.a <<= v  ==  t.a = (t.a << v): a longer column must be refused, and nothing may have grown meanwhile
+                if not ncol:
+                    raise Disabled()
+                import operator as _op
+                acc = next((a for a, i in t._current_column_map().items() if i == 0), None)
+                if acc is None:
+                    raise Disabled()
+                return guarded(lambda: setattr(t, acc, getattr(_op, ev[2])(getattr(t, acc), k())))
             if op == "tw_col":
                 if not ncol:
                     raise Disabled()
